@@ -66,6 +66,20 @@ def main(argv):
     if not out["confirmed"]:
         print(json.dumps(out, indent=1)[:1500])
         return 3
+    if "--scratch" in argv:
+        # detection against a scratch copy (used while long background runs are reading /repo itself)
+        copy2 = make_copy()
+        try:
+            pr = subprocess.run(["patch", "-p1", "-i", patch], cwd=copy2, capture_output=True, text=True)
+            if pr.returncode != 0:
+                print("patch failed on scratch copy", pr.stdout[-300:])
+                return 2
+            env = dict(os.environ, VERIF_REPO=copy2)
+            env.pop("VF_SCRATCH", None)
+            p = subprocess.run([os.path.join(HOME, "check"), check_prop, tier], cwd=HOME, env=env, capture_output=True, text=True, timeout=7200)
+        finally:
+            shutil.rmtree(os.path.dirname(copy2), ignore_errors=True)
+        return _finish(p, out, prop, check_prop, tier, name, patch, demo, meta, note, how=f"scratch copy of /repo + patch.diff; VERIF_REPO=<copy> ./check {check_prop} {tier}")
     # detection run against /repo itself
     st = subprocess.run(["git", "-C", "/repo", "status", "--porcelain"], capture_output=True, text=True).stdout.strip()
     if st:
@@ -87,6 +101,10 @@ def main(argv):
         if ev_backup is not None:
             with open(evf, "w") as f:
                 f.write(ev_backup)
+    return _finish(p, out, prop, check_prop, tier, name, patch, demo, meta, note, how=f"/repo: git apply patch.diff; ./check {check_prop} {tier}; git checkout -- .")
+
+
+def _finish(p, out, prop, check_prop, tier, name, patch, demo, meta, note, how):
     viol = [l for l in p.stdout.splitlines() if l.startswith("VIOLATION")]
     sigs = [l.strip() for l in p.stdout.splitlines() if l.strip().startswith("leg=")]
     out["check"] = {"cmd": f"./check {check_prop} {tier}", "exit": p.returncode, "violations": len(viol), "signatures": sigs[:8]}
@@ -96,8 +114,9 @@ def main(argv):
         print(p.stdout[-1500:], p.stderr[-800:])
     dst = os.path.join(HOME, "seeded", prop, name)
     os.makedirs(dst, exist_ok=True)
-    shutil.copyfile(patch, os.path.join(dst, "patch.diff"))
-    shutil.copyfile(demo, os.path.join(dst, "demo.py"))
+    if os.path.abspath(patch) != os.path.abspath(os.path.join(dst, "patch.diff")):
+        shutil.copyfile(patch, os.path.join(dst, "patch.diff"))
+        shutil.copyfile(demo, os.path.join(dst, "demo.py"))
     m = {
         "property": prop,
         "summary": meta.get("summary"),
@@ -107,7 +126,7 @@ def main(argv):
         "what_i_ran": [
             "scratch copy of /repo: demo.py exits 0 on the unchanged tree",
             "scratch copy + patch.diff: demo.py exits non-zero; repository test suite: " + out["tests_with_change"],
-            f"/repo: git apply patch.diff; ./check {check_prop} {tier}; git checkout -- .",
+            how,
         ],
         "confirmed": out["confirmed"],
         "demo_with_change": out["demo_with_change"],
